@@ -89,7 +89,7 @@ def x_obligations(tier):
         o.append(Obl(f"C20-C11-paths[miniB,{s}]", "xhair.obl.c11", "paths_agree", env=_e(VF_SEARCH=s, VF_EPRE=epre, VF_ESUF=esuf, VF_FIXED=fixed, VF_JUNK=junk, VF_JPRE=jpre, VF_JSUF=jsuf), timeout=T, path_timeout=200,
                      family="C20-C11-paths", bound="miniB: three path configurations (main, mirror, archive) over the glob model"))
     for s in ["m/*", "m/*/*", "*"]:
-        o.append(Obl(f"C20-C11-all[miniB,{s}]", "xhair.obl.c11", "all_agree", env=_e(VF_SEARCH=s, VF_EPRE="m/l/", VF_ESUF=".i" if False else "", VF_FIXED="m/c/r1", VF_CONST_TYPES="prj,pr,ct,lib", VF_CONST_SIDS="m,m/p,m/c,m/l"), timeout=T,
+        o.append(Obl(f"C20-C11-all[miniB,{s}]", "xhair.obl.c11", "all_agree", env=_e(VF_SEARCH=s, VF_EPRE="m/l/", VF_ESUF=".i" if False else "", VF_FIXED="m/c/r1", VF_CONST_TYPES="prj,pr,ct,l_ib", VF_CONST_SIDS="m,m/p,m/c,m/l"), timeout=T,
                      family="C20-C11-all", bound="miniB: FindInAll over constants + FindInPaths"))
     o.append(Obl("C20-reach[miniB]", "xhair.obl.c01", "reach_typed", env=_e(VF_N=6), timeout=150, expect="refute", family="C20-twin"))
     return o
